@@ -1,7 +1,7 @@
 """unit c01_compose — machine-checked glue between the three links of C01 ("syntax trees are lossless"):
 
     L1 c01_reader  LuaLexer::tokenize ensures  tiled(tokens, bytes(text), 0, len)
-    L2 c01_parser  parse_chunk        requires tokens_ok(tokens)           ensures emits(eaten(events), ranges(tokens), doc)
+    L2 c01_parser  parse_chunk        requires tokens_ok(tokens)           ensures emits(eaten(events), ranges(tokens), doc), events_ok(events)
     L3 c01_green   build + finish     requires ranges_ok(text, eaten(events)), events_ok, parents_ok   ensures leaves == eaten(events)
 
 The predicates are NOT retyped here: the template pastes units/c01_reader/iface.rs, units/c01_parser/iface.rs and
@@ -31,8 +31,11 @@ UNIT = {
         'c01_reader / c01_parser / c01_green, taken as implications; that the values `toks`, `events`, `leaves` are the ones flowing through '
         'LuaParser::parse (tokenize -> parse_chunk -> LuaTreeBuilder::build/finish on the same `text`) is read off lua_parser.rs:50-84, not proved',
         'ASSUMED, no unit proves it: H-DOC (doc mode only) every EatToken range emitted by LuaDocParser starts on a char boundary of the text',
-        'ASSUMED, no unit proves them: events_ok(events), parents_ok(events) (preconditions of LuaTreeBuilder::build, see c01_green)',
-        'ASSUMED inside H-L2 (see c01_parser): the contracts of LuaDocParser::parse and parse_stats',
+        'ASSUMED, no unit proves it: parents_ok(events) (precondition of LuaTreeBuilder::build, see c01_green)',
+        'events_ok(events) (the other precondition of build) is NOT a free hypothesis any more: it follows from H-L2ev = the exit contract of '
+        'c01_parser::parse_chunk (tokens_ok(toks) ==> events_ok(events)). PROVED there: the marker API and the parser driver preserve events_ok, and it '
+        'holds of the empty list; ASSUMED there: the external_body shims parse_stats and LuaDocParser::parse preserve events_ok',
+        'ASSUMED inside H-L2 and H-L2ev (see c01_parser): the contracts of LuaDocParser::parse and parse_stats',
         'ASSUMED inside H-L3 (see c01_green): rowan (L4) `leaves()` of the finished tree == ranges handed to GreenNodeBuilder::token; byte content of `&text[a..b]` is bytes(text)[a..b]',
         'str_len_ok(text): a &str is at most usize::MAX bytes long',
     ],
@@ -44,7 +47,7 @@ UNIT = {
         'G1 tiled(toks, b, 0, n) && toks.len() < 2^31-1  ==>  tokens_ok(toks)',
         'G2 emits(eaten(events), ranges(toks), doc) && tiled(..)  ==>  chain(eaten(events), 0, n) and (non-doc, or doc + starts on char boundaries) ranges_ok(text, eaten(events))',
         'G3 leaves == eaten(events) && chain(eaten(events), 0, n)  ==>  concat_slices(b, leaves) == b',
-        'theorem_lossless: G1, G2, G3 chained; every remaining hypothesis explicit',
+        'theorem_lossless: G1, G2, G3 chained; events_ok(events) derived from the c01_parser exit contract (H-L2ev) via G1; every remaining hypothesis explicit',
     ],
     'mutants': [],          # nothing extracted but type definitions; negative lemmas are listed in the unit report instead
 }
